@@ -179,6 +179,7 @@ static void gen_c13(Plan& p, Rng& r) {
     gen_common(p, r);
     p.files.push_back("d0/sub/"); p.files.push_back("d0/f0:100"); p.files.push_back("d0/sub/g:5");
     bool faults = r.below(4) == 0;
+    bool table_faults = r.below(3) == 0;
     int n = 6 + (int)r.below(30);
     for (int i = 0; i < n; i++) {
         uint32_t k = r.below(100);
@@ -188,6 +189,7 @@ static void gen_c13(Plan& p, Rng& r) {
             if (c < 7) o.n["dirfd_dir"] = r.below(6); else if (c < 8) o.n["dirfd_closed"] = r.below(4); else if (c < 9) o.n["dirfd_never"] = r.below(3); else o.n["dirfd"] = r.below(3);
             o.n["oflags"] = (o.path == "sub" || o.path == ".") ? (r.below(2) ? 2 : 0) : (r.below(2) ? 1 : 0); o.n["rights"] = (int64_t)((o.path == "sub" || o.path == ".") ? R_READ : (R_READ | R_WRITE));
             if (faults && r.below(4) == 0) { o.fault = r.below(2) ? "open_emfile" : "strndup_fail"; o.fault_nth = 1; }
+            else if (table_faults && r.below(2)) { o.fault = "realloc_fail"; o.fault_nth = 1; }   // fires only in an open that has to grow the descriptor table
             if (r.below(4) == 0) o.n["abs"] = 1;      // an absolute path (names an existing host file): the directory handle still has to be valid
             p.ops.push_back(o);
         } else if (k < 52) {
